@@ -26,7 +26,7 @@ LevelAfter(o, k) ==
   IF k = 0 THEN 0
   ELSE LET e == T.events[k] prev == LevelAfter(o, k - 1) IN
        IF e.obj # o THEN prev
-       ELSE CASE e.op = "new" -> 0
+       ELSE CASE e.op \in {"new", "new_bad"} -> 0
               [] e.op = "resolve" -> prev + 1
               [] e.op \in {"resolve_iter", "resolve_all"} -> T.levels[e.inp]
               [] OTHER -> prev
@@ -34,6 +34,7 @@ LevelAfter(o, k) ==
 Expected(k) ==
   LET e == T.events[k] before == LevelAfter(e.obj, k - 1) top == T.levels[e.inp] IN
   CASE e.op = "new" -> [enabled |-> TRUE, lv |-> <<>>, out |-> "ok"]
+    [] e.op = "new_bad" -> [enabled |-> TRUE, lv |-> <<>>, out |-> "exc:OSError"]
     [] e.op = "resolve" -> [enabled |-> before < top, lv |-> <<before + 1>>, out |-> "ok"]
     \* on an already stepped object the drivers run past the last level after yielding the rest
     [] e.op = "resolve_iter" -> [enabled |-> before < top, lv |-> [i \in 1..(top - before) |-> before + i],
